@@ -217,6 +217,7 @@ func runLock(orig, pred sx.Tree) sx.Tree {
 	snap0 := sx.T()
 	snaps := []sx.Tree{}
 	waits := []sx.Tree{}
+	awaits := []sx.Tree{} // per command: how long it took until the predicted snapshot was there (ms)
 	if pred.Len() >= 3 {
 		snap0 = await(pred.At(1).String(), 2*time.Second)
 		for ci, cs := range pred.At(2).Kids {
@@ -325,6 +326,7 @@ func runLock(orig, pred sx.Tree) sx.Tree {
 				s = await(want, limit)
 			}
 			snaps = append(snaps, s)
+			awaits = append(awaits, sx.L(time.Since(t0).Milliseconds()))
 			if s.String() != want && !(c.At(0).Int() == 6 && l.mainCode() == 2) {
 				break // first disagreement: what follows would only repeat it
 			}
@@ -336,7 +338,7 @@ func runLock(orig, pred sx.Tree) sx.Tree {
 	em := r.emitted
 	r.mu.Unlock()
 	fin := sx.T(snap(), sx.L(em))
-	return sx.T(netd, snap0, sx.T(snaps...), sx.T(waits...), fin)
+	return sx.T(netd, snap0, sx.T(snaps...), sx.T(waits...), fin, sx.T(awaits...))
 }
 
 func (r *rt) byNid(nid int64) *hnode {
